@@ -390,7 +390,9 @@ func c02RestTimeout(r *core.Run) {
 		for _, f := range run.bodys {
 			r.Fn(core.FuncName(f))
 			for _, fv := range f.FreeVars {
-				if isRWType(fv.Type()) {
+				// a captured cell that nothing in the goroutine reads or writes is harmless (a struct of
+				// per-request state split into its fields binds every field into every closure)
+				if isRWType(fv.Type()) && c02FreeVarUsed(fv, 0) {
 					o.Fail(p.Pos(f.Pos()), "%s captures the real ResponseWriter %s: handler output bypasses the buffer and races with the timeout response", core.FuncName(f), fv.Name())
 				}
 			}
@@ -1079,6 +1081,15 @@ func c02RestTimeout(r *core.Run) {
 		if found == 0 {
 			o.Fail(p.Pos(serve.Pos()), "the deadline arm never distinguishes client cancellation (context.Canceled)")
 		}
+		// the mapping may be spelled so that no branch names context.Canceled (a lookup in a never-written
+		// table of (error, status) pairs, a helper): decide it by evaluating the status writer on
+		// context.Canceled, context.DeadlineExceeded and an outsider (c02_eval.go)
+		if o.Verdict == core.Violated {
+			if n, _ := c02EvalRestStatus(p, run, serve, cands); n > 0 {
+				o.Verdict, o.Msgs = core.Held, nil
+				o.Site(n, "evaluated")
+			}
+		}
 	})
 
 	c02HandOver(r, "D5", "rest", runOr(run, serve, problem))
@@ -1218,8 +1229,9 @@ func c02RestGuards(r *core.Run) {
 		}
 		return nil
 	}
-	passesThrough := func(o *core.O, f *ssa.Function) {
-		w := rwParam(f)
+	var passesThroughW func(o *core.O, f *ssa.Function, w *ssa.Parameter)
+	passesThrough := func(o *core.O, f *ssa.Function) { passesThroughW(o, f, rwParam(f)) }
+	passesThroughW = func(o *core.O, f *ssa.Function, w *ssa.Parameter) {
 		for _, in := range core.Instrs(f, isNext) {
 			as := core.Args(core.AsCall(in))
 			if w == nil || c02Var(as[1]) != ssa.Value(w) {
@@ -1407,11 +1419,61 @@ func c02RestGuards(r *core.Run) {
 	isTry := core.CallTo("(lib/syncx.Limit).TryBorrow")
 	isRet := core.CallTo("(lib/syncx.Limit).Return")
 	var mcReq []*ssa.Function
+	// mcSite: one per-request function and the function that borrows for it: itself, or one in-package
+	// helper the borrow is routed through (`admitted := withPermit(latch, func() { next.ServeHTTP(w, r) })`):
+	// the helper is handed the function that runs next as a parameter
+	type mcSite struct {
+		per   *ssa.Function  // serves the request (has the ResponseWriter)
+		h     *ssa.Function  // calls TryBorrow; == per unless the borrow lives in a helper
+		call  *ssa.Call      // the call of h in per (helper form)
+		fnPar *ssa.Parameter // parameter of h through which the handler is run (helper form)
+		body  *ssa.Function  // the closure handed to h that calls next (helper form)
+		mc    *ssa.MakeClosure
+	}
+	var mcSites []mcSite
+	mcProblem := ""
+	hostOf := map[*ssa.Function]*ssa.Parameter{} // helper -> its handler-running parameter
 	if mcCtor != nil {
 		// role: the functions of the package that borrow from a syncx.Limit (closure of MaxConns or a handler type's method)
 		for _, f := range p.PkgFuncs(c02Hdl) {
-			if len(core.Instrs(f, isTry)) > 0 {
-				mcReq = append(mcReq, f)
+			if len(core.Instrs(f, isTry)) == 0 {
+				continue
+			}
+			mcReq = append(mcReq, f)
+			if rwParam(f) != nil {
+				mcSites = append(mcSites, mcSite{per: f, h: f})
+				continue
+			}
+			n := 0
+			if f.Parent() == nil {
+				for _, g := range p.PkgFuncs(c02Hdl) {
+					for _, in := range core.Instrs(g, func(in ssa.Instruction) bool {
+						c, ok := in.(*ssa.Call)
+						return ok && c.Call.StaticCallee() == f
+					}) {
+						c := in.(*ssa.Call)
+						for i, a := range c.Call.Args {
+							mc, ok := a.(*ssa.MakeClosure)
+							if !ok || i >= len(f.Params) {
+								continue
+							}
+							runsNext := false
+							for _, cf := range c02WithClosures(mc.Fn.(*ssa.Function)) {
+								if len(core.Instrs(cf, isNext)) > 0 {
+									runsNext = true
+								}
+							}
+							if runsNext && rwParam(g) != nil {
+								n++
+								mcSites = append(mcSites, mcSite{per: g, h: f, call: c, fnPar: f.Params[i], body: mc.Fn.(*ssa.Function), mc: mc})
+								hostOf[f] = f.Params[i]
+							}
+						}
+					}
+				}
+			}
+			if n == 0 {
+				mcProblem = "ResponseWriter parameter of " + core.FuncName(f) + " (and no per-request caller handing it the function that runs next)"
 			}
 		}
 	}
@@ -1420,17 +1482,93 @@ func c02RestGuards(r *core.Run) {
 		return ok && isTry(c)
 	})
 	mcNeed := func(o *core.O) bool {
-		return o.Need(mcCtor != nil, "handler.MaxConns") && o.Need(len(mcReq) > 0, "the function of MaxConns calling Limit.TryBorrow")
+		return o.Need(mcCtor != nil, "handler.MaxConns") && o.Need(len(mcReq) > 0, "the function of MaxConns calling Limit.TryBorrow") && o.Need(mcProblem == "", mcProblem)
+	}
+	// runsHandler: next.ServeHTTP, or (in a borrow helper) the call of the parameter through which the handler is run
+	runsHandler := func(f *ssa.Function) func(ssa.Instruction) bool {
+		pa := hostOf[f]
+		if pa == nil {
+			return isNext
+		}
+		return core.Or(isNext, core.Is(c02CallsOfParam(f, pa)...))
 	}
 	r.Check("D6/K2/maxconns-borrow-guard", "in MaxConns next.ServeHTTP is reachable only after TryBorrow() returned true; the refused arm always answers 503 and hands the request's own writer on", func(o *core.O) {
 		if !mcNeed(o) {
 			return
 		}
-		for _, f := range mcReq {
+		for _, s := range mcSites {
+			f := s.per
 			r.Fn(core.FuncName(f))
 			w := rwParam(f)
 			if !o.Need(w != nil, "ResponseWriter parameter of "+core.FuncName(f)) {
 				return
+			}
+			if s.h != f {
+				// the borrow lives in helper s.h, which runs the closure s.body under the slot and reports whether it did
+				h := s.h
+				r.Fn(core.FuncName(h), core.FuncName(s.body))
+				var ns []ssa.Instruction
+				for _, cf := range c02WithClosures(s.body) {
+					ns = append(ns, core.Instrs(cf, isNext)...)
+					passesThroughW(o, cf, w)
+				}
+				o.Site(len(ns), core.FuncName(f), core.FuncName(h))
+				// next runs nowhere else: the closure is only handed to the helper, the per-request function itself does not call next
+				for _, ref := range *s.mc.Referrers() {
+					if _, dbg := ref.(*ssa.DebugRef); !dbg && ref != ssa.Instruction(s.call) {
+						o.Fail(p.InstrPos(ref), "the function that runs next.ServeHTTP is also used outside %s: it can run without a borrowed slot", core.FuncName(h))
+					}
+				}
+				if x := core.Instrs(f, isNext); len(x) > 0 {
+					o.Fail(p.InstrPos(x[0]), "next.ServeHTTP is reachable without a successful TryBorrow: the concurrency bound is not enforced")
+				}
+				runs := c02CallsOfParam(h, s.fnPar)
+				if len(runs) == 0 {
+					o.Fail(p.Pos(h.Pos()), "%s never runs the handler it is given", core.FuncName(h))
+				}
+				for _, c := range runs {
+					if _, plain := c.(*ssa.Call); !plain {
+						o.Fail(p.InstrPos(c), "%s defers/spawns the handler: it runs after the slot was returned", core.FuncName(h))
+					}
+				}
+				if x := core.Requires(h, core.Is(runs...), borrowed); x != nil {
+					o.Fail(p.InstrPos(x), "next.ServeHTTP is reachable without a successful TryBorrow: the concurrency bound is not enforced")
+				}
+				// the helper's result says whether a slot was borrowed
+				for _, ret := range core.Returns(h) {
+					if len(ret.Results) != 1 {
+						o.Fail(p.InstrPos(ret), "%s does not report whether a slot was borrowed", core.FuncName(h))
+						continue
+					}
+					v := core.Result(ret, 0)
+					switch {
+					case core.Describe(v) == "const:true":
+						if x := core.Requires(h, core.Is(ret), borrowed); x != nil {
+							o.Fail(p.InstrPos(ret), "%s reports a borrowed slot although TryBorrow failed: the refused request gets no 503", core.FuncName(h))
+						}
+					case core.Describe(v) == "const:false":
+						if x := core.Requires(h, core.Is(ret), core.Not(borrowed)); x != nil {
+							o.Fail(p.InstrPos(ret), "%s reports a refusal although the handler ran: a 503 is appended to a served request", core.FuncName(h))
+						}
+					default:
+						if c, ok := v.(*ssa.Call); !ok || !isTry(c) {
+							o.Fail(p.InstrPos(ret), "%s returns %s, which does not tell whether a slot was borrowed", core.FuncName(h), core.Describe(v))
+						}
+					}
+				}
+				admitted := core.BoolVal(func(v ssa.Value) bool {
+					c, ok := v.(*ssa.Call)
+					return ok && c.Call.StaticCallee() == h
+				})
+				_, refused := core.EdgesOf(f, admitted)
+				if len(refused) == 0 {
+					o.Fail(p.Pos(f.Pos()), "TryBorrow's result is never tested")
+					continue
+				}
+				if x, ok := core.Reach(core.Q{From: c02Heads(refused), Target: core.IsExit, Blocked: answers(w, 503)}); ok {
+					o.Fail(p.InstrPos(x), "a refused request can end without status 503")
+				}
+				continue
 			}
 			ns := core.Instrs(f, isNext)
 			o.Site(len(ns), core.FuncName(f))
@@ -1466,7 +1604,7 @@ func c02RestGuards(r *core.Run) {
 				o.Fail(p.Pos(f.Pos()), "no deferred latch.Return(): the slot leaks (at least when the handler panics) and the server eventually refuses every request")
 				continue
 			}
-			if x := core.Precedes(f, isDef, isNext); x != nil {
+			if x := core.Precedes(f, isDef, runsHandler(f)); x != nil {
 				o.Fail(p.InstrPos(x), "next.ServeHTTP can run before Return is deferred")
 			}
 			holds, _ := core.EdgesOf(f, borrowed)
@@ -1498,6 +1636,17 @@ func c02RestGuards(r *core.Run) {
 				}
 			}
 		}
+		// a per-request function that borrows through a helper returns nothing itself
+		for _, s := range mcSites {
+			if s.h == s.per {
+				continue
+			}
+			for _, g := range c02WithClosures(s.per) {
+				for _, rc := range core.Instrs(g, isRet) {
+					o.Fail(p.InstrPos(rc), "Return is called outside %s, which borrowed and returns the slot itself: the latch's capacity grows", core.FuncName(s.h))
+				}
+			}
+		}
 	})
 	r.Check("D6/K8/maxconns-latch-shared", "the latch is created once per middleware instance (outside the per-request function) with capacity n", func(o *core.O) {
 		if !mcNeed(o) {
@@ -1509,7 +1658,11 @@ func c02RestGuards(r *core.Run) {
 			for _, in := range core.Instrs(f, isNew) {
 				n++
 				r.Fn(core.FuncName(f))
-				for _, q := range mcReq {
+				var pers []*ssa.Function
+				for _, s := range mcSites {
+					pers = append(pers, s.per)
+				}
+				for _, q := range pers {
 					for g, i := f, 0; g != nil && i < 8; i++ {
 						up := g.Parent()
 						if m := c02MakerOf(g); m != nil && up != nil {
@@ -1525,9 +1678,18 @@ func c02RestGuards(r *core.Run) {
 					o.Fail(p.InstrPos(in), "latch capacity is %s, not MaxConns' argument", core.Describe(core.AsCall(in).Common().Args[0]))
 				}
 				// the latch borrowed from is this one
-				for _, q := range mcReq {
+				for _, s := range mcSites {
+					q := s.h
 					for _, t := range core.Instrs(q, isTry) {
 						recv := core.Args(core.AsCall(t))[0]
+						// borrowed in a helper from its parameter: the latch is what the per-request function hands it
+						if pa, isPar := c02Var(recv).(*ssa.Parameter); isPar && s.call != nil && pa.Parent() == q {
+							for i, qp := range q.Params {
+								if qp == pa && i < len(s.call.Call.Args) {
+									recv = s.call.Call.Args[i]
+								}
+							}
+						}
 						home, ok := c02Var(recv).(*ssa.Alloc)
 						okStore := false
 						if ok {
@@ -1906,6 +2068,11 @@ func c02Rpc(r *core.Run) {
 		if w, ok := core.Reach(core.Q{From: c02Heads(dc), Target: core.IsReturn, Blocked: isCode(4)}); ok && len(dc) > 0 {
 			o.Fail(p.InstrPos(w), "context.DeadlineExceeded can be returned without being mapped to codes.DeadlineExceeded")
 		}
+		// the mapping may be spelled without a branch per error (lookup in a never-written table, helper):
+		// decide it by evaluating the arm on context.Canceled, context.DeadlineExceeded and an outsider
+		if o.Verdict == core.Violated && c02EvalRpcArm(p, run, fn) {
+			o.Verdict, o.Msgs = core.Held, nil
+		}
 	})
 
 	r.Check("D8/K1/rpc-done-arm-returns-handler-result", "the completion arm returns exactly the (resp, err) pair the goroutine stored from the handler call", func(o *core.O) {
@@ -1939,6 +2106,12 @@ func c02Rpc(r *core.Run) {
 			for i := range rt.Results {
 				v := core.Result(rt, i)
 				idx, ok := slot[c02Var(v)]
+				if !ok {
+					// copied out under the lock by a closure run on the spot: `withLock(&lock, func() { result, resultErr = resp, err })`
+					if src := c02ThroughSync(fn, v); src != nil {
+						idx, ok = slot[src]
+					}
+				}
 				if !ok || idx != i {
 					o.Fail(p.InstrPos(ret), "result #%d of the completion arm is %s, not the handler's result #%d", i, core.Describe(v), i)
 				}
